@@ -775,6 +775,8 @@ class SLXMap(FeatureNormalizer):
 
     def fill_deriv_(self, dfdx, dfdy, x):
         rho = np.maximum(x[self.i], 1e-10)
+        # the value routine clamps the density at 1e-10: no density derivative below it
+        live = x[self.i] >= 1e-10
         rho83 = rho ** (8.0 / 3)
         rho53 = (8.0 / 3) * rho ** (5.0 / 3)
         const = 2 * (3 * np.pi**2) ** (1.0 / 3)
@@ -783,7 +785,7 @@ class SLXMap(FeatureNormalizer):
         fac = rho83 + sigma
         fac[:] = fac * fac
         fac[:] = dfdy / fac
-        dfdx[self.i] -= fac * sigma * rho53
+        dfdx[self.i] -= live * (fac * sigma * rho53)
         dfdx[self.j] += fac * rho83 * const
 
     def as_dict(self):
@@ -826,6 +828,8 @@ class SLBMap(FeatureNormalizer):
 
     def fill_deriv_(self, dfdx, dfdy, x):
         rho = np.maximum(x[self.i], 1e-10)
+        # the value routine clamps the density at 1e-10: no density derivative below it
+        live = x[self.i] >= 1e-10
         tau0 = self.const * rho ** (5.0 / 3)
         tauw = x[self.j] / (8 * rho)
         tau = x[self.k]
@@ -833,8 +837,8 @@ class SLBMap(FeatureNormalizer):
         v0 = 2 * dfdy * (tauw - tau) * fac * fac
         vw = -2 * dfdy * fac
         vt = 2 * dfdy * (tau0 + tauw) * fac * fac
-        dfdx[self.i] += v0 * self.const * (5.0 / 3) * rho ** (2.0 / 3)
-        dfdx[self.i] -= vw * tauw / rho
+        dfdx[self.i] += live * (v0 * self.const * (5.0 / 3) * rho ** (2.0 / 3))
+        dfdx[self.i] -= live * (vw * tauw / rho)
         dfdx[self.j] += vw / (8 * rho)
         dfdx[self.k] += vt
 
@@ -875,12 +879,14 @@ class SLTMap(FeatureNormalizer):
 
     def fill_deriv_(self, dfdx, dfdy, x):
         rho = np.maximum(x[self.i], 1e-10)
+        # the value routine clamps the density at 1e-10: no density derivative below it
+        live = x[self.i] >= 1e-10
         tau0 = self.const * rho ** (5.0 / 3)
         tau = x[self.j]
         fac = 1.0 / (tau + tau0)
         v0 = -2 * dfdy * tau * fac * fac
         vt = 2 * dfdy * tau0 * fac * fac
-        dfdx[self.i] += v0 * self.const * (5.0 / 3) * rho ** (2.0 / 3)
+        dfdx[self.i] += live * (v0 * self.const * (5.0 / 3) * rho ** (2.0 / 3))
         dfdx[self.j] += vt
 
     def as_dict(self):
@@ -920,13 +926,15 @@ class SLTWMap(FeatureNormalizer):
 
     def fill_deriv_(self, dfdx, dfdy, x):
         rho = np.maximum(x[self.i], 1e-10)
+        # the value routine clamps the density at 1e-10: no density derivative below it
+        live = x[self.i] >= 1e-10
         tau0 = self.const * rho ** (5.0 / 3)
         tauw = x[self.j] / (8 * rho)
         fac = 1.0 / (tauw + tau0)
         v0 = -2 * dfdy * tauw * fac * fac
         vw = 2 * dfdy * tau0 * fac * fac
-        dfdx[self.i] += v0 * self.const * (5.0 / 3) * rho ** (2.0 / 3)
-        dfdx[self.i] -= vw * tauw / rho
+        dfdx[self.i] += live * (v0 * self.const * (5.0 / 3) * rho ** (2.0 / 3))
+        dfdx[self.i] -= live * (vw * tauw / rho)
         dfdx[self.j] += vw / (8 * rho)
 
     def as_dict(self):
@@ -964,6 +972,8 @@ class SLDMap(FeatureNormalizer):
 
     def fill_deriv_(self, dfdx, dfdy, x):
         rho = np.maximum(x[self.i], 1e-10)
+        # the value routine clamps the density at 1e-10: no density derivative below it
+        live = x[self.i] >= 1e-10
         tau0 = self.const * rho ** (5.0 / 3)
         tauw = x[self.j] / (8 * rho)
         tau = x[self.k]
@@ -973,8 +983,8 @@ class SLDMap(FeatureNormalizer):
         v0 += dfdy * tauw * fac2 * fac2
         vw = -dfdy * tau0 * fac2 * fac2
         vt = dfdy * tau0 * fac1 * fac1
-        dfdx[self.i] += v0 * self.const * (5.0 / 3) * rho ** (2.0 / 3)
-        dfdx[self.i] -= vw * tauw / rho
+        dfdx[self.i] += live * (v0 * self.const * (5.0 / 3) * rho ** (2.0 / 3))
+        dfdx[self.i] -= live * (vw * tauw / rho)
         dfdx[self.j] += vw / (8 * rho)
         dfdx[self.k] += vt
 
